@@ -120,6 +120,8 @@ def lex(data):
                         ln = data[j:k]
                         nxt = k + 1
                     raw = ln[:-1] if ln.endswith(b"\r") else ln
+                    if b"\r" in raw:
+                        note.add("bareCR")      # RFC 5228: octet-not-crlf -- a lone CR cannot occur inside a line
                     if raw == b".":
                         end = j + 1
                         if k < 0:
